@@ -10,7 +10,7 @@ VERIF_FAIL_PATTERNS = [
     'assertion failed', 'possible arithmetic underflow/overflow', 'possible division by zero',
     'decreases not satisfied', 'possible bit shift underflow/overflow', 'unreachable', 'recommendation not met',
     'could not prove termination', 'assertion failure', 'loop invariant', 'may be out of bounds', 'constructed value may fail to meet its declared type invariant',
-    'failed precondition', 'cannot show', 'might not be allowed',
+    'failed precondition', 'cannot show', 'might not be allowed', 'unable to prove',
 ]
 RLIMIT_PATTERNS = ['Resource limit (rlimit) exceeded', 'rlimit', 'timed out', 'resource limit']
 
